@@ -1,8 +1,7 @@
 """C01 - every valid instruction assembles to its exact AVR ISA machine code."""
-import json
 import random
 
-from . import common as C, encgen, encrun, gen
+from . import encgen, encrun
 
 PROP = "C01"
 
@@ -11,65 +10,28 @@ def cases(tier, seed):
     rng = random.Random(seed)
     cs = encgen.legal("F") + encgen.addresses("F", rng, 4000 if tier == "quick" else 200000)
     cs += encgen.addresses("R", rng, 500)
-    cs += [c for c in encgen.relative("F") if True]
+    cs += encgen.relative("F")
     if tier != "quick":
-        cs += encgen.legal("R")
+        cs += encgen.legal("R") + encgen.relative("R")
     return cs
 
 
 def run(res):
-    vh = C.build_harness("debug")
-    try:
-        changed = gen.gen_all(vh)
-        res.oblige("tie A: Gen/OpTable.v, Gen/Devices.v regenerated from /repo", True, "rewritten: %s" % changed)
-    except gen.GenError as e:
-        res.oblige("tie A: Gen/*.v regenerated from /repo", False, str(e))
-    exe = C.build_model()
-    pr = C.check_props(PROP)
-    for n, ok, note in pr["obligations"]:
-        res.oblige("theorem " + n, ok, note)
-    if pr.get("broken") and not pr["obligations"]:
-        res.oblige("coq build", False, pr["broken"])
-    cs = cases(res.tier, res.seed)
-    rows = encrun.run_cases(vh, exe, cs)
-    # C01 quantifies over what the ISA allows: keep the cases the specification can encode
-    legal_rows = [r for r in rows if r[3] != "NONE"]
-    encrun.judge(res, legal_rows, PROP, "legal-operand")
-    dist = {}
-    for r in legal_rows:
-        t = encgen.tag(r[0])
-        dist[t] = dist.get(t, 0) + 1
-    res.extra["distribution"] = dist
-    res.extra["exhaustive"] = True
-    res.extra["exhaustive_note"] = ("complete for every one-word form (all registers, immediates, displacements, ports, bits, "
-                                    "branch and rjmp/rcall offsets); jmp/call: all 64 high parts x 8 boundary low parts + random; "
-                                    "lds/sts: all registers x boundary + random addresses; reduced-core lds/sts complete")
-    res.rule = ("cases = (core, pc, mnemonic, operand tuple) enumerated by vlib/encgen.py legal()+addresses()+relative(), restricted to "
-                "tuples Spec/Isa.expect can encode; each is run through instruction::process of /repo, the extracted Coq model and the "
-                "ISA table; distinct = distinct case text, all are non-trivial (an instruction is encoded)")
-    res.samples = [dict(case=r[0], implementation=r[1], model=r[2], isa_spec=r[3], decoded=r[4]) for r in legal_rows[:2] + legal_rows[-2:]]
-    res.assume = ["Spec/Isa.v is a transcription of the AVR Instruction Set Manual (DESIGN.md section 10)",
-                  "operands in this interface are literals and registers; symbolic operands are covered by the theorem's "
-                  "hypothesis on Eval.run and by the program-level checks"]
+    encrun.standard_run(
+        res, PROP, cases(res.tier, res.seed), keep=lambda r: r[3] != "NONE", what="legal-operand",
+        rule=("cases = (core, pc, mnemonic, operand tuple) enumerated by vlib/encgen.py legal()+addresses()+relative(), restricted to "
+              "tuples Spec/Isa.expect_at can encode; each is run through instruction::process of /repo, the extracted Coq model and "
+              "the ISA table; distinct = distinct case text, all are non-trivial (an instruction is encoded)"),
+        exhaustive_note=("complete for every one-word form (all registers, immediates, displacements, ports, bits, branch and "
+                         "rjmp/rcall offsets); jmp/call: all 64 high parts x 8 boundary low parts + random; lds/sts: all registers x "
+                         "boundary + random addresses; reduced-core lds/sts complete"),
+        assume=["Spec/Isa.v is a transcription of the AVR Instruction Set Manual (DESIGN.md section 10)",
+                "operands in this interface are literals and registers; symbolic operands are covered by the theorem's "
+                "hypothesis on the accessor views and by the program-level checks"])
 
 
-def match_known(f, entry):
-    return entry.get("class") is not None and f.get("cls") == entry.get("class")
+match_known = encrun.match_known
 
 
 def replay(path):
-    r = json.load(open(path))
-    i = r.get("input")
-    if not i:
-        print("replay: broken obligation %r - re-run ./check %s" % (r.get("obligation"), PROP))
-        return 1
-    vh = C.build_harness("debug")
-    exe = C.build_model()
-    rows = encrun.run_cases(vh, exe, [i["case"]])
-    cse, impl, model, spec, dec = rows[0]
-    bad = (impl != "ERR") if spec == "NONE" else (impl != spec)
-    if bad:
-        print("VIOLATION property=%s replay=%s" % (r["property"], path))
-        return 1
-    print("replay: property now holds on this input")
-    return 0
+    return encrun.replay(PROP, path)
